@@ -125,7 +125,11 @@ def read_list(path, encoding='utf-8'):
     rows = []
     if not data:
         return rows
-    text = data.decode(encoding, errors='surrogateescape')
+    try:
+        text = data.decode(encoding, errors='surrogateescape')
+    except UnicodeError as e:
+        # the file is not text in the encoding it is supposed to be in: a finding of whoever compares it with something, not a crash of the reader
+        return [('<%s is not text in %s: %s>' % (os.path.basename(path), encoding, e), 'nan')]
     parts = text.split('\n')
     if parts and parts[-1] == '':
         parts.pop()
